@@ -58,6 +58,13 @@ def cases(tier, seed):
             idx += 1
             out.append({"kind": "moore", "cls": "moore", "idx": idx, "seed": seed, "maxd": maxd, "n": n_})
             idx += 1
+    for n_ in (2, 4, 5, 6, 8):
+        for sc_ in (2.0 ** 60, 2.0 ** -60, 2.0 ** 100, 2.0 ** -100):
+            if abs(np.log2(sc_)) * n_ > 900:
+                continue
+            for j in range(1 if tier == "quick" else 4):
+                out.append({"kind": "det", "cls": "det", "idx": idx, "seed": seed, "maxd": maxd, "n": n_, "scale": sc_})
+                idx += 1
     for (m_, n_) in ([(17, 17), (20, 33), (33, 20), (16, 16), (26, 9)] if tier == "quick" else
                      [(a, b) for a in (9, 16, 17, 26, 33, 40, 64) for b in (9, 16, 17, 33, 48)]):
         for r in sorted({0, 1, min(m_, n_) // 2, min(m_, n_) - 1, min(m_, n_)}):
@@ -282,6 +289,10 @@ def _det(spec, ctx, R):
         A = refq.rand_unitary(rng, n) * float(rng.choice([0.5, 1.0, 3.0]))
         sA = embed.svals(A)
         singular = False
+    if spec.get("scale"):
+        # exact power-of-two scaling: the determinant itself stays representable (|det| ~ 2^(60 n)), its powers and squares need not
+        A = A * spec["scale"]
+        ctx.hit("det:scaled_pow2")
     ctx.distinct(A, nontrivial=n >= 2)
     s_or = embed.svals(A)
     s1 = max(float(s_or[0]), 1e-300)
